@@ -5,7 +5,7 @@ from ..engines import solver
 from ..refmodel import RefModel
 
 PROP = "C02"
-BUDGET = {"quick": 900, "thorough": 25000}
+BUDGET = {"quick": 1800, "thorough": 40000}
 ALARM_S = 900
 RULE = ("catalogue models (SIR, SIR/N, SEIR, SIS, SIR with births and deaths, Lotka-Volterra, FitzHugh, van der Pol, linear chain, "
         "additive-parameter ODE, logistic) and bounded seeded random models x parameters x time grids (uniform / non-uniform, "
